@@ -12,6 +12,7 @@ import (
 	"bytes"
 	"context"
 	"fmt"
+	"github.com/holiman/uint256"
 	"math/rand"
 	"net"
 	"net/netip"
@@ -286,6 +287,12 @@ func runNet(o *Out, r *rand.Rand, rg *rig, thorough bool) {
 		}
 		if remote == 1 {
 			ro = obs
+		}
+		// a third of the look-ups are made by a node whose database has filled up: it advertises a tiny radius, which decides what
+		// it KEEPS, not what it believes
+		b.st.radius = nil
+		if i%3 == 2 {
+			b.st.radius = uint256.NewInt(1)
 		}
 		t0 := time.Now()
 		call := func() (s string) {
